@@ -313,6 +313,9 @@ func (p *queueProcessor) prepareQuotaForNextAttempt(req *Request) error {
 	if err != nil {
 		return err
 	}
+	if err := verifhook.Fault("queue.quota-inc", req.GetID()); err != nil {
+		return err
+	}
 
 	return quota.Inc(req.GetAPIStream())
 }
